@@ -13,6 +13,8 @@ What is extracted (and nothing else is trusted about the source):
 * the statements of the ``for utt_ids, feats in loader`` body, in order:
   ``torch.save(feat, <dir/prefix+utt+suffix>)`` and
   ``print(utt_id, file=options.manifest[, flush=..])``      -> ``c_loop``
+* what is done to a manifest line before ``utt2path.pop``: ``line.strip()``,
+  ``line.rstrip("\\n")`` / ``line[:-1]``, or nothing          -> ``c_norm``
 * ``__getitem__`` begins with ``torch.manual_seed(self.seed +
   self.seed_offsets[idx])``                                 -> ``c_reseed_each``
 * the DataLoader is built without shuffle / sampler / batching.
@@ -226,6 +228,7 @@ def translate(src):
     f = _find_func(tree, "signals_to_torch_feat_dir")
     body = _strip_doc(f.body)
     pos = {}
+    norm = "NoStrip"
     loop_ops = None
     offsets_arg = None
     for i, st in enumerate(body):
@@ -238,8 +241,19 @@ def translate(src):
         elif t == "utt2idx = dict(((utt_id, idx) for idx, utt_id in enumerate(utt2path)))":
             pos["idx"] = i
         elif isinstance(st, ast.If) and U(st.test) == "options.manifest is not None":
-            want = "options.manifest.seek(0)\nfor line in options.manifest:\n    utt2path.pop(line.strip(), None)"
-            if st.orelse or "\n".join(U(s) for s in st.body) != want:
+            norms = {
+                "line.strip()": "StripAll",
+                "line.rstrip('\\n')": "StripNewline",
+                "line.rstrip('\\r\\n')": "StripNewline",
+                "line[:-1]": "StripNewline",
+                "line": "NoStrip",
+            }
+            got = "\n".join(U(s) for s in st.body)
+            norm = None
+            for k, v in norms.items():
+                if got == "options.manifest.seek(0)\nfor line in options.manifest:\n    utt2path.pop(%s, None)" % k:
+                    norm = v
+            if st.orelse or norm is None:
                 raise Unsupported("manifest block: %s" % t)
             if "filter" in pos:
                 raise Unsupported("two manifest blocks")
@@ -314,12 +328,13 @@ def translate(src):
         "Import ListNotations.",
         "",
         "Definition tool : tool_cfg :=",
-        "  mkcfg %s %s [%s] %s %s." % (
+        "  mkcfg %s %s [%s] %s %s %s." % (
             mode,
             "true" if filt else "false",
             "; ".join(loop_ops),
             "true" if append else "false",
             "true" if reseed else "false",
+            norm,
         ),
         "",
     ]
